@@ -429,11 +429,12 @@ def timeoutCallback (s : State) : State :=
   else forceDisconnect s
 
 -- src: test radio simulate_connection_event_response + ll_data_pdu_buffer::received:
---      everything committed goes out, the last PDU stays unacknowledged until the next event;
---      PDUs without payload are not handed to the link layer
+--      everything committed goes out; the peripheral's k-th PDU is acknowledged by the central's
+--      (k+1)-th PDU of the same event, so the last one stays unacknowledged unless the central
+--      sent more PDUs than the peripheral; PDUs without payload are not handed to the link layer
 def radioExchange (s : State) (pdus : List Pdu) : State × List Pdu :=
   ({ s with rxq := s.rxq ++ pdus.filter (fun p => p.body ≠ []), txq := [],
-            inflight := decide (s.txq ≠ []) }, s.txq)
+            inflight := decide (s.txq ≠ [] ∧ max 1 pdus.length ≤ s.txq.length) }, s.txq)
 
 /-! `link_layer::end_event` (after the radio exchange), cut into its stages -/
 
